@@ -176,7 +176,7 @@ theorem args_sound {sc m} (hs : ScopeRel sc m) (name : List Char) :
       simp only at h2 ht he
       rw [← r1] at h2
       cases av <;>
-        simp_all [analyzeArgs]
+        simp_all [analyzeArgs, refArgExpr]
 
 theorem argsOk_length {sc} : ∀ (args : List (Ref Expr)) (ps : List VarInfo), argsOk sc args ps = true →
     args.length = ps.length
